@@ -94,4 +94,23 @@ Proof.
     + split; [done|]. exists pf, (Proc [n0] (pr_body0 pt') (pr_next pt')), n0. done.
     + destruct pt' as [provs' body' nx']. cbn in Hn1. subst provs'. cbn. rewrite <- Hpoll2. eapply polls_provs; eauto.
 Qed.
+
+(* ------------------------------------------------------------------ the generic join: a step b that commutes with the formal
+   control message (possibly moving its target from t to t1), then the chain of the new target *)
+Lemma join_generic c f t t1 nf k b c1 N :
+  JN c -> step NP D F c (Control f t) = SStep (ctl nf k f t c) -> step NP D F c b = SStep c1 ->
+  step NP D F (ctl nf k f t c) b = SStep (ctl nf k f t1 c1) -> CtlReady D c1 f t1 nf k ->
+  ((forall m c', runN m c1 c' -> (m <= N)%nat) \/ (forall m c', runN m (ctl nf k f t c) c' -> (m <= N)%nat)) ->
+  exists k' d, runN k' c1 d /\ runN k' (ctl nf k f t c) d.
+Proof.
+  intros HJ Hctl Hb Hb' Hr1 Hbound.
+  assert (HJ1 : JN c1) by (eapply (JN_step D F teq); eauto).
+  destruct (chain D F teq Hteq HF HFa HFn HFc f t1 nf k N c1 HJ1 Hr1) as (m & d & ptd & H1 & H2 & HJd & Hrd & Hptd & Hpd).
+  { destruct Hbound as [Hbd|Hbd]; [by left|right]. intros m0 c' Hm.
+    assert (H : runN (S m0) (ctl nf k f t c) c') by (eapply bs_S; [by apply stp_Some|exact Hm]). specialize (Hbd _ _ H). lia. }
+  exists (S m), (ctl nf k f t1 d). split.
+  - replace (S m) with (m + 1)%nat by lia. eapply bsteps_trans; [exact H1|]. eapply bs_S; [|apply bs_O].
+    apply stp_Some. eapply ctl_fire; eauto.
+  - eapply bs_S; [by apply stp_Some|exact H2].
+Qed.
 End JoinBC.
